@@ -374,6 +374,95 @@ def gen_state_canonical(nb, nd, kinds, depth):
     return out, nstates
 
 
+# ------------------------------------------------------------------ inventory closure
+# Every declaration of rkcommon/memory/IntrusivePtr.h and RefCount.h (enumerated from the clang AST on
+# every run by factgen: class members incl. constructors, conversion operators, fields, deleted
+# functions; namespace-level operator templates and aliases) -> the Coq obligations and the harness
+# execution counters that cover it.  The check fails closed on a declaration missing here, on an entry
+# whose declaration vanished / changed signature, and on a covered entry with zero executions.
+# counters: harness tokens (dc cc mc vc vm vt va vr kc rc ra dt ca ma ri rd), "create", "observations"
+# (every step reads useCount of every live object and operator bool/->/* of every handle), "cmp_pairs"
+# (every pair of live handles, same and mixed static types: ==, !=, < in both operand orders),
+# "null_literal_ctor"/"null_literal_assign", "destructions", "threads_ops", "traits".
+HIST = "seq_count_is_creator_plus_handles(_tbl,_src) seq_no_error_state seq_destroyed_by_last_release"
+COVER = {
+    "IntrusivePtr<T>::ptr : T *":
+        dict(thm="members_closed; every micro-op row of facts_match reads/writes it", ops=["observations"]),
+    "IntrusivePtr<T>::IntrusivePtr() = default":
+        dict(thm="facts_match (MDefCtor row), overloads_match (FDef); " + HIST, ops=["dc"]),
+    "IntrusivePtr<T>::~IntrusivePtr()":
+        dict(thm="facts_match (MDtor row), contracts_src; " + HIST, ops=["dt"]),
+    "IntrusivePtr<T>::IntrusivePtr(const IntrusivePtr<T> &)":
+        dict(thm="facts_match (MCopyCtor), overloads_match (FCopyL); " + HIST, ops=["cc"]),
+    "IntrusivePtr<T>::IntrusivePtr(IntrusivePtr<T> &&)":
+        dict(thm="facts_match (MMoveCtor), overloads_match (FMoveR); " + HIST, ops=["mc"]),
+    "IntrusivePtr<T>::template<O> IntrusivePtr(const IntrusivePtr<O> &)":
+        dict(thm="facts_match (MConvCtor), overloads_match (FConvL, FConvR, FConvTemp, FAssignConvL/R via temporary); " + HIST,
+             ops=["vc", "vm", "vt", "va", "vr", "kc"]),
+    "IntrusivePtr<T>::IntrusivePtr(T *const)":
+        dict(thm="facts_match (MRawCtor), overloads_match (FRawC, FRawNull); " + HIST, ops=["rc", "null_literal_ctor"]),
+    "IntrusivePtr<T>::IntrusivePtr<T> & operator=(const IntrusivePtr<T> &)":
+        dict(thm="facts_match (MCopyAssign: inc new before dec old), overloads_match (FAssignL); ex_self_assignment_at_count_1; " + HIST, ops=["ca"]),
+    "IntrusivePtr<T>::IntrusivePtr<T> & operator=(IntrusivePtr<T> &&)":
+        dict(thm="facts_match (MMoveAssign), overloads_match (FAssignR, FAssignConvL/R); " + HIST, ops=["ma", "va", "vr"]),
+    "IntrusivePtr<T>::IntrusivePtr<T> & operator=(T *)":
+        dict(thm="facts_match (MRawAssign), overloads_match (FAssignRaw, FAssignNull); " + HIST, ops=["ra", "null_literal_assign"]),
+    "IntrusivePtr<T>::operator bool() const":
+        dict(thm="cmp_facts_match / comparisons_src (a_bool)", ops=["observations"]),
+    "IntrusivePtr<T>::T & operator*() const":
+        dict(thm="cmp_facts_match / comparisons_src (a_deref)", ops=["observations", "traits"]),
+    "IntrusivePtr<T>::T * operator->() const":
+        dict(thm="cmp_facts_match / comparisons_src (a_arrow)", ops=["observations", "traits"]),
+    "RefCountedObject::RefCountedObject() = default":
+        dict(thm="facts_match (rc_init_one: born with the creator's reference); Model.Create", ops=["create", "traits"]),
+    "RefCountedObject::virtual ~RefCountedObject() noexcept = default":
+        dict(thm="members_closed (DRcVirtDtor: `delete this` through the base must run the derived destructor)",
+             ops=["destructions", "traits"]),
+    "RefCountedObject::RefCountedObject(const rkcommon::memory::RefCountedObject &) = delete":
+        dict(thm="members_closed (DRcDeletedCopy 4): an object cannot be copied, so no second counter can start from a copied value",
+             ops=["traits"]),
+    "RefCountedObject::rkcommon::memory::RefCountedObject & operator=(const rkcommon::memory::RefCountedObject &) = delete":
+        dict(thm="members_closed (DRcDeletedCopy 4)", ops=["traits"]),
+    "RefCountedObject::RefCountedObject(rkcommon::memory::RefCountedObject &&) = delete":
+        dict(thm="members_closed (DRcDeletedCopy 4)", ops=["traits"]),
+    "RefCountedObject::rkcommon::memory::RefCountedObject & operator=(rkcommon::memory::RefCountedObject &&) = delete":
+        dict(thm="members_closed (DRcDeletedCopy 4)", ops=["traits"]),
+    "RefCountedObject::void refInc() const":
+        dict(thm="facts_match (rc_inc_single, rc_atomic); conc_* theorems (one atomic step)", ops=["ri", "cc", "threads_ops"]),
+    "RefCountedObject::void refDec() const":
+        dict(thm="facts_match (rc_dec_single, rc_dec_own_result, rc_dec_deletes); delete_by_the_decrement_that_returned_zero",
+             ops=["rd", "dt", "threads_ops"]),
+    "RefCountedObject::long long useCount() const":
+        dict(thm="facts_match (rc_use_load); Model.use_count in every history theorem", ops=["observations"]),
+    "RefCountedObject::refCounter : mutable std::atomic<long long>":
+        dict(thm="facts_match (rc_atomic, rc_init_one)", ops=["observations", "threads_ops"]),
+    "template<T,U> bool operator<(const IntrusivePtr<T> &, const IntrusivePtr<U> &)":
+        dict(thm="free_functions_closed, cmp_facts_match, comparisons_src (address order)", ops=["cmp_pairs"]),
+    "template<T,U> bool operator==(const IntrusivePtr<T> &, const IntrusivePtr<U> &)":
+        dict(thm="free_functions_closed, cmp_facts_match, comparisons_src, handles_equal_iff_same_object", ops=["cmp_pairs"]),
+    "template<T,U> bool operator!=(const IntrusivePtr<T> &, const IntrusivePtr<U> &)":
+        dict(thm="free_functions_closed, cmp_facts_match, comparisons_src, handles_equal_iff_same_object", ops=["cmp_pairs"]),
+    "template<T> using Ref = IntrusivePtr<T>":
+        dict(thm="free_functions_closed (FAliasRef); identity static_assert in the fact TU", ops=["traits"]),
+    "using RefCount = rkcommon::memory::RefCountedObject":
+        dict(thm="free_functions_closed (FAliasRefCount); identity static_assert in the fact TU", ops=["traits"]),
+}
+
+
+def traits_oracle(line):
+    """the `harness traits` line against the property: returns None or a description of the failure"""
+    kv = dict(t.split("=", 1) for t in line.split() if "=" in t)
+    want = {"virtual_dtor": ["1"], "ref_alias": ["1"], "refcount_alias": ["1"], "fresh_count": ["1"],
+            "nullptr_ctor": ["null,2"], "nullptr_assign": ["null,2"], "const_access": ["6"], "after": ["2"], "end": ["1"],
+            # copying / moving the object itself: deleted (HEAD), or a NEW object with count 1 and the source untouched
+            "copy_ctor": ["deleted", "src=2,new=1"], "move_ctor": ["deleted", "src=2,new=1"],
+            "copy_assign": ["deleted", "src=2,dst=1"], "move_assign": ["deleted", "src=2,dst=1"]}
+    for k, ok in want.items():
+        if kv.get(k) not in ok:
+            return "%s=%s (required: %s)" % (k, kv.get(k), " or ".join(ok))
+    return None
+
+
 HAND = [   # the histories the design calls out
     # seed C08-7's demo: a = std::move(b) with non-empty a and a named b that stays alive; then move from the emptied b
     "cB cB rc:0:0 rc:1:1 rd:0 ma:0:1 rc:2:1 ma:2:1 dt:0 dt:1 dt:2 rd:1",
@@ -489,6 +578,7 @@ def run(ctx):
     groups = [("5-handles", NB, ND, corp + rnd), ("3-handles", XB, XD, exh)]
     nmis = 0
     noracle = 0
+    obs_steps = cmp_pairs = destructions = 0
     reported = False
     for gname, nb, nd, cases in groups:
         mism, crashes, mlines = vlib.differential(ctx, cases, model, [(gname, exe, ["seq", str(nb), str(nd)])],
@@ -537,6 +627,17 @@ def run(ctx):
         rc2, ilines, ierr = vlib.run_lines(ctx, exe, ["seq", str(nb), str(nd)], cases)
         if rc2 == 0:
             noracle += len(cases)
+            for il in ilines:
+                prev_dead = 0
+                for stp in il.split(" ; "):
+                    prt = stp.split("|")
+                    if len(prt) == 4:
+                        obs_steps += 1
+                        cmp_pairs += len(prt[3])
+                        nd_now = prt[1].count("x")
+                        if nd_now > prev_dead:
+                            destructions += nd_now - prev_dead
+                        prev_dead = nd_now
             for c, il in zip(cases, ilines):
                 why = judge(nb, nd, c, il)
                 if why is not None:
@@ -611,6 +712,59 @@ def run(ctx):
                        "required": "useCount = creator + handles at the end; every object destroyed exactly once; no data race",
                        "broken_source_facts": rc_bad})
         reported = True
+
+    # ---- traits probe (copy semantics of RefCountedObject, virtual destructor, aliases, nullptr literal, const access)
+    rc_t, out_t, err_t = ctx.run_exe(exe, ["traits"], timeout=60)
+    ctx.count(1)
+    ctx.cov["traits"] = out_t.strip()
+    twhy = traits_oracle(out_t.strip()) if rc_t == 0 else "harness traits died rc=%d: %s" % (rc_t, err_t[-400:])
+    if twhy and not reported:
+        ctx.violation("declarations outside the handle operations violate the property (copying a RefCountedObject, virtual destructor, "
+                      "nullptr literal, aliases, const access)",
+                      {"command": "build/C08/harness_asan traits", "observed": out_t.strip(), "failure": twhy,
+                       "required": "copies of an object are new objects (count 1, source unchanged) or deleted; assignment changes no counter; "
+                                   "virtual destructor; Ref/RefCount are the same types; nullptr constructs/assigns an empty handle and releases"})
+        reported = True
+
+    # ---- inventory closure: AST declarations vs COVER, with execution counts of this run
+    counters = {}
+    for gname, nb, nd, cases in groups:
+        for c in cases:
+            for t in c.split():
+                f = t.split(":")
+                counters[f[0]] = counters.get(f[0], 0) + 1
+                if f[0] in ("rc", "ra") and f[2] == "-" and int(f[1]) < nb:
+                    k2 = "null_literal_ctor" if f[0] == "rc" else "null_literal_assign"
+                    counters[k2] = counters.get(k2, 0) + 1
+    counters["create"] = counters.get("cB", 0) + counters.get("cD", 0)
+    counters["observations"] = obs_steps
+    counters["cmp_pairs"] = cmp_pairs
+    counters["destructions"] = destructions
+    counters["threads_ops"] = sum(t["threads"] * t["ops_per_thread"] for t in tres if t.get("rc") == 0)
+    counters["traits"] = 1 if rc_t == 0 else 0
+    inv = (facts.get("info") or {}).get("inventory") or []
+    invrep = {}
+    if not inv:
+        ctx.broken.append("inventory: no declarations enumerated from the AST")
+    for d in inv:
+        if d not in COVER:
+            ctx.broken.append("inventory: IntrusivePtr.h/RefCount.h declare `%s`, which props/C08/check.py COVER does not list "
+                              "(new or changed member / overload: model, facts and harness do not cover it)" % d)
+            invrep[d] = "NOT IN COVER"
+            continue
+        e = COVER[d]
+        if "scope" in e:
+            invrep[d] = "out of scope: " + e["scope"]
+            continue
+        n = sum(counters.get(k, 0) for k in e["ops"])
+        invrep[d] = {"executions": n, "by": {k: counters.get(k, 0) for k in e["ops"]}, "obligations": e["thm"]}
+        if n == 0:
+            ctx.broken.append("inventory: `%s` is covered by %s but was executed 0 times in this run" % (d, e["ops"]))
+    for d in COVER:
+        if d not in inv:
+            ctx.broken.append("inventory: COVER lists `%s`, which the headers no longer declare with that signature" % d)
+    ctx.cov["inventory"] = invrep
+    ctx.cov["inventory_size"] = len(inv)
 
     # ---- search when the fact table no longer matches
     if not facts_ok and not reported:
